@@ -75,14 +75,23 @@ def osm_from_graph(g):
 class NetView:
     """index of an OSMRoadNetwork for the harness"""
 
-    def __init__(self, rn, gid: str):
+    def __init__(self, rn, gid: str, from_inputs: bool = False):
         self.rn, self.gid = rn, gid
+        self.from_inputs = from_inputs
         self.nodes = sorted(rn.graph.nodes())
         self.ix = {n: i + 1 for i, n in enumerate(self.nodes)}
         self.links = sorted(rn.link_helper.links.keys())
         self.edges = []
         for u, v, d in rn.graph.edges(data=True):
-            self.edges.append([self.ix[u], self.ix[v], int(round(float(d["travel_time"]) * 1000))])
+            self.edges.append([self.ix[u], self.ix[v], self.weight_ms(d)])
+
+    def weight_ms(self, d: Dict[str, Any]) -> int:
+        """the travel time of a link: the graph's own travel_time attribute when the input provides one; for a graph
+        that comes without it (the generated ones) the time implied by the INPUT length and speed, independently of what
+        the network object stored"""
+        if self.from_inputs:
+            return int(round(float(d["length"]) / 1000.0 / float(d["speed_kmph"]) * 3600_000))
+        return int(round(float(d["travel_time"]) * 1000))
 
     def graph_line(self, fw: bool) -> Dict[str, Any]:
         # node positions are quantised to res-15 cells (about a metre): "fastest" is claimed up to the time it takes to
@@ -105,7 +114,7 @@ class NetView:
         import networkx as nx
 
         src = self.nodes[src_ix - 1]
-        dist = nx.single_source_dijkstra_path_length(self.rn.graph, src, weight=lambda u, v, d: min(int(round(float(x["travel_time"]) * 1000)) for x in d.values()))
+        dist = nx.single_source_dijkstra_path_length(self.rn.graph, src, weight=lambda u, v, d: min(self.weight_ms(x) for x in d.values()))
         return [int(dist.get(n, 10 ** 8)) for n in self.nodes]
 
 
@@ -235,7 +244,7 @@ def write_records(path: Path, job: Dict[str, Any]) -> Dict[str, Any]:
         else:
             g = gen_graph(rng, job["nodes"])
             rn = osm_from_graph(g)
-            view = NetView(rn, job["id"])
+            view = NetView(rn, job["id"], from_inputs=True)
             fw = job["nodes"] <= 14
         w(view.graph_line(fw))
         pairs = all_link_pairs(view, rng) if job.get("all_pairs") else pairs_for(view, rng, job["n"])
